@@ -712,7 +712,12 @@ func isFreshRec(v ssa.Value, seen map[ssa.Value]bool, depth int) bool {
 		}
 	case *ssa.Extract:
 		return isFreshRec(x.Tuple, seen, depth)
+	case *ssa.TypeAssert:
+		return isFreshRec(x.X, seen, depth)
 	case *ssa.Call:
+		if sc := x.Call.StaticCallee(); sc != nil && sc.String() == "github.com/mitchellh/copystructure.Copy" {
+			return true // a deep copy is a fresh private object (A4)
+		}
 		if depth >= 2 {
 			return false
 		}
